@@ -234,6 +234,20 @@ def run_case(ctx, items, labelmsm, seekable=False):
 def run(ctx):
     common.quiet_logging()
     rng = ctx.rng
+    if ctx.worker % 4 == 3 or not ctx.quick:
+        # more than a thousand wrong-checksum frames in a row (a noisy link), good frames before and after
+        items = []
+        for _ in range(2):
+            fr, p, _k = streams.rand_frame(rng, "defined")
+            items.append(("frame", fr, fr))
+        for _ in range(1300):
+            fr = refcrc.frame(streams.rand_unknown_payload(rng, rng.randint(2, 5)))
+            items.append(("badcrc", fr[:-1] + bytes([fr[-1] ^ 0x04]), fr))
+        for _ in range(3):
+            fr, p, _k = streams.rand_frame(rng, "unknown")
+            items.append(("frame", fr, fr))
+        run_case(ctx, items, 1)
+        ctx.hit("long_damaged_runs")
     for i in range(ctx.n(6000, 60000)):
         run_case(ctx, make(rng, with_damage=bool(i % 2)), 1 + (i // 2) % 2, seekable=bool((i // 4) % 2))
 
